@@ -69,3 +69,36 @@ UNITS['ordered'] = dict(
       (r'^void \(\*(const)?\)\(void \*\)$|DtorFunc$', 'fnptr', 'DtorTag'),
     ],
 )
+
+SRC = 'ScopedRemover<CallbackList<void (VArg), Pol>, void>'
+SRD = 'ScopedRemover<EventDispatcher<int, void (VArg), Pol>, void>'
+UNITS['scopedremover'] = dict(
+    tu='inst/scopedremover.cpp', filter=['ScopedRemover'], std='c++11',
+    root=('ClassTemplateSpecializationDecl', 'ScopedRemover'), root_q=SRC,
+    extra_roots=[('ClassTemplateSpecializationDecl', 'ScopedRemover', SRD)],
+    free_functions=['removeHandleFromScopedRemoverItemList'],
+    names={SRC: 'SRC', SRD: 'SRD', SRC + '::Item': 'ItemC', SRD + '::Item': 'ItemD', 'VArg': 'VArg',
+           'ScopedRemover<CallbackList<void (VArg), Pol>>': 'SRC', 'ScopedRemover<EventDispatcher<int, void (VArg), Pol>>': 'SRD',
+           'ScopedRemover<CallbackList<void (VArg), Pol>>::Item': 'ItemC', 'ScopedRemover<EventDispatcher<int, void (VArg), Pol>>::Item': 'ItemD'},
+    alt_names={SRC: ['ScopedRemover<CallbackList<void (VArg), Pol>>'], SRD: ['ScopedRemover<EventDispatcher<int, void (VArg), Pol>>']},
+    value_records=['VArg', 'ItemC', 'ItemD'],
+    opaque_records=['VArg'],
+    ghost_sig=[],
+    type_rules=[
+      (r'^CallbackList<void \(VArg\), Pol>$', 'record', 'CLT'),
+      (r'^EventDispatcher<int, void \(VArg\), Pol>$', 'record', 'EDT'),
+      (r'Handle_?$', 'wp', 'Handle'),
+      (r'^CallbackListBase<void \(VArg\), Pol>::Node$', 'record', 'Node'),
+      (r'^CallbackListBase<void \(VArg\), Pol>$', 'record', 'CLT'),
+      (r'^EventDispatcherBase<', 'record', 'EDT'),
+      (r'::Event$', 'builtin', 'int'),
+      (r'^std::vector<Item>$', 'vector', 'WVecC', 'SRC_'),
+      (r'^std::vector<Item>$', 'vector', 'WVecD', 'SRD_'),
+      (r'^std::vector<.*ScopedRemover<CallbackList.*Item', 'vector', 'WVecC'),
+      (r'^std::vector<.*ScopedRemover<EventDispatcher.*Item', 'vector', 'WVecD'),
+      (r'^__gnu_cxx::__normal_iterator<.*ScopedRemover<CallbackList.*Item', 'vecit', 'WVItC'),
+      (r'^__gnu_cxx::__normal_iterator<.*ScopedRemover<EventDispatcher.*Item', 'vecit', 'WVItD'),
+      (r'^std::unique_lock<', 'unique_lock', 'UniqueLock'),
+      (r'^std::function<', 'function', 'Callback'),
+    ],
+)
